@@ -158,7 +158,19 @@ def run(f, fixture, rep, cfg, tier):
                 for lf in hb.origins({"l": info["place"]["l"], "p": []}):
                     srcs.add(lf["call"].decl if lf["kind"] == "call" else lf["kind"])
             else:
-                srcs.add(info["kind"])
+                # `matches!(..)` lowers to a bool local set to constants in the arms of the real tests: not a test of its own
+                dpl = op_place(hb.term(sb)["d"])
+                const_flag = False
+                if dpl is not None and not dpl["p"] and hb.local_ty(dpl["l"]) == "bool":
+                    dsb = [d for d in hb.defs(dpl["l"]) if not d[4]]
+                    for _i in range(4):     # through plain copies of the flag
+                        if len(dsb) == 1 and dsb[0][2] == "assign" and dsb[0][3]["rv"]["r"] == "use" and op_place(dsb[0][3]["rv"]["o"]) is not None and not op_place(dsb[0][3]["rv"]["o"])["p"]:
+                            dsb = [d for d in hb.defs(op_place(dsb[0][3]["rv"]["o"])["l"]) if not d[4]]
+                        else:
+                            break
+                    const_flag = bool(dsb) and all(d[2] == "assign" and d[3]["rv"]["r"] == "use" and (d[3]["rv"]["o"].get("k") or {}).get("ty") == "bool" for d in dsb)
+                if not const_flag:
+                    srcs.add(info["kind"])
             bad = {x for x in srcs if not (re.search(NOFOLLOW_QUERIES, x) or x in ("std::fs::Metadata::file_type", "std::fs::FileType::is_symlink"))}
             rep.check(not bad, "R3", "remove-helper|gate|%s" % ",".join(sorted(bad)) if bad else "remove-helper|gate", "the removal is gated only by the non-following query",
                       "the removal is also gated by %s" % sorted(bad), hb.span)
